@@ -675,7 +675,9 @@ fn twin_check<M: Machine>(fw: &FWorld<M>, slot: u16, s: &Slot<M>, twin: &<M::Twi
                         continue;
                     }
                     if !want.is_finite() || !got.is_finite() {
-                        if want.is_finite() != got.is_finite() && want.abs() < 1e300 && got.abs() < 1e300 {
+                        // `want` is not at the edge of the range here, so it is finite: an
+                        // infinite or NaN bound in its place is a mismatch
+                        if want.is_finite() != got.is_finite() {
                             viol.push(Violation::new("C05", &format!("{name}/ci-not-back-transformed-arithmetic-ci"), slot, format!("{} {which}: got {:?}, expected {:?}", conf_name(c), got, want)));
                         }
                         continue;
